@@ -851,12 +851,11 @@ impl<'a, R: 'a + Read> Read for CompressionLayerFailSafeReader<'a, R> {
     /// decompression will fail while reading not-compressed data such as
     /// `CompressionLayerReader` footer
     fn read(&mut self, buf: &mut [u8]) -> io::Result<usize> {
-        // Use this mem::replace trick to be able to get back the compressor
-        // inner and freely move from CompressionLayerReaderState to others
-        let old_state =
-            std::mem::replace(&mut self.state, CompressionLayerFailSafeReaderState::Empty);
-        match old_state {
-            CompressionLayerFailSafeReaderState::Ready(inner) => {
+        if let CompressionLayerFailSafeReaderState::Ready(_) = self.state {
+            // Use this mem::replace trick to be able to get back the inner layer
+            let old_state =
+                std::mem::replace(&mut self.state, CompressionLayerFailSafeReaderState::Empty);
+            if let CompressionLayerFailSafeReaderState::Ready(inner) = old_state {
                 self.state = CompressionLayerFailSafeReaderState::InData {
                     cache: vec![0u8; FAIL_SAFE_BUFFER_SIZE],
                     read_offset: 0,
@@ -869,140 +868,158 @@ impl<'a, R: 'a + Read> Read for CompressionLayerFailSafeReader<'a, R> {
                     uncompressed_read: 0,
                     inner,
                 };
-                self.read(buf)
             }
+        }
+
+        match &mut self.state {
             CompressionLayerFailSafeReaderState::InData {
-                mut cache,
-                mut read_offset,
-                mut cache_filled_offset,
-                mut state,
-                mut uncompressed_read,
-                mut inner,
+                cache,
+                read_offset,
+                cache_filled_offset,
+                state,
+                uncompressed_read,
+                inner,
             } => {
-                if uncompressed_read > UNCOMPRESSED_DATA_SIZE {
+                if *uncompressed_read > UNCOMPRESSED_DATA_SIZE {
                     return Err(Error::WrongReaderState(
                         "[Compress FailSafe Layer] Too much data read".to_string(),
                     )
                     .into());
                 }
-
-                if read_offset == cache_filled_offset
-                    && cache_filled_offset == FAIL_SAFE_BUFFER_SIZE
-                {
-                    // Cache is full and there is no more data to read from
-                    // -> cache must be reset
-                    cache.fill(0);
-                    cache_filled_offset = 0;
-                    read_offset = 0;
+                if buf.is_empty() {
+                    return Ok(0);
                 }
 
-                // Try to fill the cache from the inner source
-                match inner.read(&mut cache[cache_filled_offset..]) {
-                    Ok(read) => {
-                        if read == 0 && read_offset == cache_filled_offset {
-                            // No more data from inner and the cache has been fully read
-                            // -> return either an error or Ok(0)
-                            if uncompressed_read > 0 {
-                                // Inside a stream and no more data available
-                                return Err(io::Error::new(
-                                    io::ErrorKind::UnexpectedEof,
-                                    "No more data from the inner layer",
-                                ));
+                // A decompression pass may consume some input without producing
+                // any output, or end the current stream exactly when the output
+                // is full. Returning `Ok(0)` in these cases would be understood
+                // by the caller as the end of the data: loop until some bytes
+                // are produced, the input is really exhausted, or an error occurs
+                loop {
+                    if *read_offset == *cache_filled_offset
+                        && *cache_filled_offset == FAIL_SAFE_BUFFER_SIZE
+                    {
+                        // Cache is full and there is no more data to read from
+                        // -> cache must be reset
+                        cache.fill(0);
+                        *cache_filled_offset = 0;
+                        *read_offset = 0;
+                    }
+
+                    // Try to fill the cache from the inner source
+                    let mut no_more_input = false;
+                    if *cache_filled_offset < FAIL_SAFE_BUFFER_SIZE {
+                        match inner.read(&mut cache[*cache_filled_offset..]) {
+                            Ok(0) => no_more_input = true,
+                            Ok(read) => *cache_filled_offset += read,
+                            Err(err) => {
+                                if *read_offset == *cache_filled_offset {
+                                    // No more data in the cache
+                                    return Err(err);
+                                }
+                                // There is still data in the cache to read
+                                // Will fail and return the error on a next pass
                             }
-                            // No more data available but not in a stream
-                            return Ok(0);
                         }
-                        cache_filled_offset += read;
                     }
-                    error => {
-                        if read_offset == cache_filled_offset {
-                            // No more data in the cache
-                            return error;
+
+                    // Number of byte available in the source
+                    let mut available_in = *cache_filled_offset - *read_offset;
+                    // IN: Offset in the source
+                    // OUT: Offset in the source after the decompression pass
+                    let mut input_offset = 0;
+                    // Available spaces in the output
+                    let mut available_out = std::cmp::min(
+                        buf.len(),
+                        (UNCOMPRESSED_DATA_SIZE - *uncompressed_read) as usize,
+                    );
+                    // IN: Offset in the output
+                    // OUT: number of bytes written in the output
+                    let mut output_offset = 0;
+                    // OUT: total number of byte written for the current stream (cumulative)
+                    let mut written = 0;
+
+                    // Even without new input, the decompressor must be called:
+                    // it may still hold output not yet delivered
+                    match brotli::BrotliDecompressStream(
+                        &mut available_in,
+                        &mut input_offset,
+                        &cache[*read_offset..*cache_filled_offset],
+                        &mut available_out,
+                        &mut output_offset,
+                        buf,
+                        &mut written,
+                        state,
+                    ) {
+                        brotli::BrotliResult::ResultSuccess => {
+                            // End of stream reached
+
+                            // Rewind the cache to the actual start of the new block
+                            // input_offset \in [0; cache_filled_offset - read_offset[
+                            *read_offset += input_offset;
+
+                            // Reset others
+                            *state = Box::new(BrotliState::new(
+                                StandardAlloc::default(),
+                                StandardAlloc::default(),
+                                StandardAlloc::default(),
+                            ));
+                            *uncompressed_read = 0;
+
+                            if output_offset > 0 {
+                                return Ok(output_offset);
+                            }
+                            // Nothing produced by the end of this stream:
+                            // continue with the next one
                         }
-                        // There is still data in the cache to read
-                        // Will fail and return the error on the next .read()
+                        result @ (brotli::BrotliResult::NeedsMoreInput
+                        | brotli::BrotliResult::NeedsMoreOutput) => {
+                            // Bytes may have been read and produced
+                            *read_offset += input_offset;
+                            *uncompressed_read +=
+                                u32::try_from(output_offset).map_err(|_| {
+                                    io::Error::new(
+                                        io::ErrorKind::InvalidData,
+                                        "Integer conversion failed",
+                                    )
+                                })?;
+
+                            if output_offset > 0 {
+                                return Ok(output_offset);
+                            }
+                            if matches!(result, brotli::BrotliResult::NeedsMoreOutput) {
+                                // No room left in the current block, but the
+                                // stream is not finished
+                                return Err(Error::WrongReaderState(
+                                    "[Compress FailSafe Layer] Too much data read".to_string(),
+                                )
+                                .into());
+                            }
+                            if no_more_input && *read_offset == *cache_filled_offset {
+                                // No more data from inner and the cache has been fully read
+                                // -> return either an error or Ok(0)
+                                if *uncompressed_read > 0 {
+                                    // Inside a stream and no more data available
+                                    return Err(io::Error::new(
+                                        io::ErrorKind::UnexpectedEof,
+                                        "No more data from the inner layer",
+                                    ));
+                                }
+                                // No more data available but not in a stream
+                                return Ok(0);
+                            }
+                        }
+                        brotli::BrotliResult::ResultFailure => {
+                            return Err(io::Error::new(
+                                io::ErrorKind::InvalidData,
+                                "Invalid Data while decompressing",
+                            ));
+                        }
                     }
                 }
-
-                // Number of byte available in the source
-                let mut available_in = cache_filled_offset - read_offset;
-                // IN: Offset in the source
-                // OUT: Offset in the source after the decompression pass
-                let mut input_offset = 0;
-                // Available spaces in the output
-                let mut available_out = std::cmp::min(
-                    buf.len(),
-                    (UNCOMPRESSED_DATA_SIZE - uncompressed_read) as usize,
-                );
-                // IN: Offset in the output
-                // OUT: number of bytes written in the output
-                let mut output_offset = 0;
-                // OUT: total number of byte written for the current stream (cumulative)
-                let mut written = 0;
-
-                let ret = match brotli::BrotliDecompressStream(
-                    &mut available_in,
-                    &mut input_offset,
-                    &cache[read_offset..cache_filled_offset],
-                    &mut available_out,
-                    &mut output_offset,
-                    buf,
-                    &mut written,
-                    &mut state,
-                ) {
-                    brotli::BrotliResult::ResultSuccess => {
-                        // End of stream reached
-
-                        // Rewind the cache to the actual start of the new block
-                        // input_offset \in [0; cache_filled_offset - read_offset[
-                        read_offset += input_offset;
-
-                        // Reset others
-                        state = Box::new(BrotliState::new(
-                            StandardAlloc::default(),
-                            StandardAlloc::default(),
-                            StandardAlloc::default(),
-                        ));
-                        uncompressed_read = 0;
-
-                        Ok(output_offset)
-                    }
-                    brotli::BrotliResult::NeedsMoreInput => {
-                        // Bytes may have been read and produced
-                        read_offset += input_offset;
-                        uncompressed_read += u32::try_from(output_offset).map_err(|_| {
-                            io::Error::new(io::ErrorKind::InvalidData, "Integer conversion failed")
-                        })?;
-
-                        Ok(output_offset)
-                    }
-                    brotli::BrotliResult::NeedsMoreOutput => {
-                        // Bytes may have been read and produced
-                        read_offset += input_offset;
-                        uncompressed_read += u32::try_from(output_offset).map_err(|_| {
-                            io::Error::new(io::ErrorKind::InvalidData, "Integer conversion failed")
-                        })?;
-
-                        Ok(output_offset)
-                    }
-                    brotli::BrotliResult::ResultFailure => Err(io::Error::new(
-                        io::ErrorKind::InvalidData,
-                        "Invalid Data while decompressing",
-                    )),
-                };
-
-                self.state = CompressionLayerFailSafeReaderState::InData {
-                    cache,
-                    cache_filled_offset,
-                    read_offset,
-                    state,
-                    uncompressed_read,
-                    inner,
-                };
-
-                ret
             }
-            CompressionLayerFailSafeReaderState::Empty => Err(Error::WrongReaderState(
+            CompressionLayerFailSafeReaderState::Ready(_)
+            | CompressionLayerFailSafeReaderState::Empty => Err(Error::WrongReaderState(
                 "[Compression Layer] Should never happens, unless an error already occurs before"
                     .to_string(),
             )
@@ -1010,6 +1027,7 @@ impl<'a, R: 'a + Read> Read for CompressionLayerFailSafeReader<'a, R> {
         }
     }
 }
+
 
 /// Scaled-down layer constants, exposed for the external verification harness
 #[cfg(feature = "mla_verif")]
